@@ -39,6 +39,11 @@ def run(ctx):
                 cases.append({"muts": [mu], "valid": valid, "data": d})
             if mu["field"] == "recv.exps_vdm_singular":
                 cases.append({"muts": [mu], "valid": valid, "data": "two02"})      # the two slices whose constants make the system singular
+        # counts and exponents again in a PAR2 world whose slice size is 4096 (allocations proportional to count x slice size)
+        for mu, valid in singles:
+            if mu["fmt"] == "par2" and mu["field"] in ("recv.exp", "main.nrecv", "ifsc.npairs", "ids.extra", "ids.dup", "dup.recv"):
+                for d in ("intact", "one"):
+                    cases.append({"muts": [mu], "valid": valid, "data": d, "big": True})
         for i, pr in enumerate(related):
             if ctx.thorough or i % 3 == ctx.seed % 3:       # quick: a third of the cross product, rotating with the seed
                 cases.append({"muts": pr, "valid": False, "data": "intact"})
